@@ -1,6 +1,7 @@
 import TantivyModel.Model.Columnar.Column
 import TantivyModel.Model.Columnar.Codec
 import TantivyModel.Model.Columnar.OptionalIndex
+import TantivyModel.Model.Columnar.CompactSpace
 /-!
 # A whole u64 column file: column index bytes, column values bytes, index length
 
@@ -94,5 +95,23 @@ def ColFile.readRow (f : ColFile) (doc : Nat) : List Nat :=
 
 def ColFile.read (f : ColFile) : Column Nat :=
   (List.range (f.idx.numDocs f.vals.length)).map f.readRow
+
+/-! ## u128 (IP address) column files: same layout, compact-space values -/
+
+/-- every value of an opened compact-space column (`get_val` for each row) -/
+def decodeU128Column (b : Bytes) : Option (List Nat) :=
+  (openU128Column b).map (fun c => (List.range c.numVals).map c.get)
+
+/-- mirrors: serialize_column_mappable_to_u128 for a given compact space -/
+def columnFileEnc128 (startsCodec : Nat) (rs : Ranges) (idx : Index) (vals : List Nat) : Option Bytes := do
+  let ib ← indexEnc startsCodec idx
+  some (ib ++ ipColumnEnc rs vals ++ leBytes 4 ib.length)
+
+/-- mirrors: open_column_u128 -/
+def openColumnFile128 (b : Bytes) : Option ColFile := do
+  let (ib, vb) ← splitByFooter b
+  let idx ← openIndex ib
+  let vals ← decodeU128Column vb
+  some ⟨idx, vals⟩
 
 end TantivyModel.Columnar
